@@ -219,6 +219,15 @@ def run(rep):
               f"init at the call: {v[1].init if v else None}: a re-used buffer keeps stale answers for points outside the bounding box", line=st.call.lineno)
     ok, how, _ = xlayer.error_discipline(st)
     rep.check(ok, "R15.b", "gis/gutils.py", "points_inside_polygon", "kernel error code raises", how, line=st.call.lineno)
+    pa_ = pq.call_arguments(st.func, st.call, list(st.shim.params))
+    for pn_ in ("polygon", "points"):
+        val_ = pa_.get(pn_)
+        if val_ is None:
+            rep.undecided("R15.b", "gis/gutils.py", "points_inside_polygon", f"`{pn_}` handed to the kernel is the caller's array, all rows", "argument not bound", line=st.call.lineno)
+            continue
+        cut = [show(x)[:60] for _c, alt in pq.split_where(val_) for x in pq.find(alt, lambda y: pq.call_named(y, "getitem") or pq.call_named(y, "delete") or pq.call_named(y, "unique"))]
+        rep.check(not cut and pq.mentions(val_, lambda y: y == ('sym', pn_)), "R15.b", "gis/gutils.py", "points_inside_polygon",
+                  f"`{pn_}` handed to the kernel is the caller's array, all rows (conversions only)", f"{cut[:1]}", line=st.call.lineno)
     names = {pn: ast.unparse(x[0]) for pn, x in st.args.items()}
     rep.check(names.get("points") == "points" and names.get("polygon") == "polygon" and names.get("atol") == "atol", "R15.b", "gis/gutils.py", "points_inside_polygon",
               "points, polygon and tolerance bound to the same-named shim parameters", str(names), line=st.call.lineno)
@@ -226,22 +235,28 @@ def run(rep):
     mod = Mod(rep.repo, "gis/grid.py")
     f = mod.func("Grid.cells_inside_polygon")
     rets = [p_ for p_ in pq.PEval().run(f) if p_.how == "return"]
-    if len(rets) != 1:
-        raise AnalysisError("gis/grid.py: Grid.cells_inside_polygon: single returning path expected")
+    if not rets:
+        raise AnalysisError("gis/grid.py: Grid.cells_inside_polygon: no returning path")
     v = rets[0].value
     CELLS = "np.arange(self.nrows*self.ncols)"
     PTS = f"self.cell2coord({CELLS})"
     FLAGS = f"gutils.points_inside_polygon({PTS}, polygon)"
     masks = [f"({FLAGS}).astype(bool)", f"np.flatnonzero({FLAGS} != 0)", f"{FLAGS} != 0", f"{FLAGS} == 1", f"{FLAGS} > 0", f"np.flatnonzero({FLAGS})",
              f"np.nonzero({FLAGS})[0]", f"np.where({FLAGS})[0]"]
-    okd = False
-    det = show(v)[:200]
-    if pq.call_named(v, ".DataFrame") and len(v[2]) >= 2 and pq.call_named(v[2][1], "dict"):
-        keys, vals = v[2][1][2][0][1], v[2][1][2][1][1]
-        got = {k_[1].strip("'\""): x for k_, x in zip(keys, vals) if k_[0] == 'sym'}
-        for m in masks:
-            if set(got) == {"x", "y", "cell"} and pq.same(got["x"], f"{PTS}[{m}, 0]") and pq.same(got["y"], f"{PTS}[{m}, 1]") and pq.same(got["cell"], f"{CELLS}[{m}]"):
-                okd = True
+    okd = True
+    det = ""
+    for p_ in rets:
+        v = p_.value
+        okp = False
+        if pq.call_named(v, ".DataFrame") and len(v[2]) >= 2 and pq.call_named(v[2][1], "dict"):
+            keys, vals = v[2][1][2][0][1], v[2][1][2][1][1]
+            got = {k_[1].strip("'\""): x for k_, x in zip(keys, vals) if k_[0] == 'sym'}
+            for m in masks:
+                if set(got) == {"x", "y", "cell"} and pq.same(got["x"], f"{PTS}[{m}, 0]") and pq.same(got["y"], f"{PTS}[{m}, 1]") and pq.same(got["cell"], f"{CELLS}[{m}]"):
+                    okp = True
+        if not okp:
+            okd = False
+            det = show(v)[:200]
     rep.check(okd, "R15.c", "gis/grid.py", "Grid.cells_inside_polygon",
               "returns x, y and cell number of exactly the flagged cells, the points tested being the centres (cell2coord) of all nrows*ncols cells against the given polygon",
               det, line=f.lineno)
